@@ -94,7 +94,7 @@ var maxVals = []int{0, 1, 2, 3, 500}
 // SetStatus 40, SetToWait 58, ChangeSetStatus 62, TaskSet/Clear 66, ChangeSet 72, StateSet 76, Log 79, At 83,
 // SetProgress 85, SetClean 87, AddNotice 89, warnings 92, Register 95, Prune 96, SaveReload 98
 var mixAll = [][2]int{{0, 6}, {6, 5}, {12, 9}, {20, 12}, {28, 8}, {33, 2}, {36, 3}, {40, 18}, {58, 4}, {62, 3}, {66, 5}, {72, 4},
-	{76, 2}, {79, 4}, {83, 2}, {85, 2}, {87, 2}, {89, 4}, {92, 3}, {95, 1}, {96, 4}, {98, 5}}
+	{76, 2}, {79, 4}, {83, 3}, {85, 2}, {87, 2}, {89, 4}, {92, 3}, {95, 1}, {96, 4}, {98, 6}}
 var mixPrune = [][2]int{{0, 12}, {6, 10}, {12, 10}, {20, 14}, {28, 3}, {33, 1}, {36, 2}, {40, 25}, {58, 3}, {72, 5}, {89, 2},
 	{92, 2}, {95, 3}, {96, 12}, {98, 2}}
 var mixStart = [][2]int{{0, 1}, {6, 4}, {12, 4}, {89, 1}, {92, 1}}
